@@ -72,10 +72,19 @@ def random_config(rng, max_w=16, max_h=8):
     sy = rng.choice([1, 1, 2, 3])
     frag = rng.choice([0, 0, 0, 1, 2, 3, sx * sy, sx * sy + 1])
     lossless = profile == 3 and rng.random() < 0.3
-    depth_bits = rng.choice([1, 2, 8, 8, 8, 10, 12, 16, 16, 20, 24, 29, 31, 32, 39])
-    luma_exc = (1 << depth_bits) - 1 if rng.random() < 0.7 else rng.randrange(1, 1 << depth_bits)
-    cbits = rng.choice([depth_bits, depth_bits, 8, 4])
-    cd_exc = (1 << cbits) - 1 if rng.random() < 0.7 else rng.randrange(1, 1 << cbits)
+    depth_bits = rng.choice([1, 2, 8, 8, 8, 10, 12, 16, 16, 20, 24, 29, 31, 32, 39, 33, 48, 63, 64, 65, 70])
+
+    def _exc(bits):
+        r = rng.random()
+        if r < 0.6:
+            return (1 << bits) - 1
+        if r < 0.75:
+            return 1 << (bits - 1)  # an exact power of two (needs ``bits`` bits)
+        return rng.randrange(1, 1 << bits)
+
+    luma_exc = _exc(depth_bits)
+    cbits = rng.choice([depth_bits, depth_bits, 8, 4, 64])
+    cd_exc = _exc(cbits)
     cfg = OrderedDict(
         profile=profile,
         level=0,
